@@ -84,8 +84,10 @@ def gen_activities(rng, well_formed=True):
                 q = "-" + q
             price = dstr(rng, 0, 400, rng.choice([2, 2, 4])) if action != "DIS" else "0"
             comm = rng.choice(["0", "-4.95", "-9.99", "4.95", "-0.01", "-" + dstr(rng, 0, 20, 2)])
-            if action == "DIS":
+            if action == "DIS" and rng.random() < 0.7:
                 comm = "0"
+            if action == "LIQ" and rng.random() < 0.2:
+                price = "0"          # a liquidation at no price, possibly with a fee
             base.update(kind="trade", action=case_word(rng, action), sym=rng.choice(SYMBOLS), qty=q, price=price,
                         comm=comm, net="0")
             acts.append(base)
